@@ -311,6 +311,11 @@ func (r *renderer) stmt(ind int, s Stmt) {
 		r.line(ind, "}")
 	default:
 		text := renderSimple(s)
+		if _, isRaw := s.(RawStmt); !isRaw {
+			// a line break inside the text belongs to a raw string literal: its continuation lines are data
+			r.line(ind, text)
+			break
+		}
 		for _, l := range strings.Split(text, "\n") {
 			r.line(ind, l)
 		}
